@@ -99,3 +99,28 @@ Theorem C04_mgda_rate : forall n J K wstar s, wfmat n J -> hull_min n J wstar ->
   dotR x x - dotR xstar xstar <= 8 * (s * s) / (INR K + 2).
 Proof. exact mgda_fw_rate. Qed.
 Print Assumptions C04_mgda_rate.
+
+(* ---- the minimum-norm point of the hull EXISTS (added): induction on the number of rows with one-dimensional
+   compactness only (the inner minimum value is a Lipschitz function of the mixing parameter), no choice axiom.
+   With it the hypothesis `hull_min n J wstar` of the MGDA theorems above is discharged ---- *)
+From TJ.proofs Require Import HullMinExists.
+Theorem C04_min_norm_point_exists : forall n J, wfmat n J -> J <> [] -> exists wstar, hull_min n J wstar.
+Proof. exact hull_min_exists. Qed.
+Print Assumptions C04_min_norm_point_exists.
+Theorem C04_mgda_rate_unconditional : forall n J K s, wfmat n J -> J <> [] -> 0 <= s ->
+  (forall v, length v = length J -> dotR (vmR n v J) (vmR n v J) <= s * s * dotR v v) ->
+  exists wstar, hull_min n J wstar /\
+    let x := agg_mgda RN 0 K J in
+    let xstar := vmR n wstar J in
+    dotR x x - dotR xstar xstar <= 8 * (s * s) / (INR K + 2).
+Proof. exact mgda_fw_rate_unconditional. Qed.
+Print Assumptions C04_mgda_rate_unconditional.
+Theorem C04_mgda_allowance_unconditional : forall n J eps iters s, wfmat n J -> J <> [] ->
+  0 <= s -> (forall g, In g J -> dotR g g <= s * s) ->
+  exists wstar, hull_min n J wstar /\
+    forall i, (i < length J)%nat ->
+    let x := agg_mgda RN eps iters J in
+    let xstar := vmR n wstar J in
+    - s * sqrt (dotR x x - dotR xstar xstar) <= dotR (nth i J []) x.
+Proof. exact mgda_allowance_unconditional. Qed.
+Print Assumptions C04_mgda_allowance_unconditional.
